@@ -28,6 +28,10 @@ type c10Case struct {
 	// not say what "agrees" means against such a NULL, so only "no solution of the preceding
 	// pattern is removed or invented" is required of these cases.
 	Chained bool `json:"chained,omitempty"`
+	// Trailing: mandatory clauses written AFTER the optional ones. The pattern that precedes an
+	// OPTIONAL clause is what is written before it; a clause after it joins the rows of the
+	// outer join (a NULL joins nothing).
+	Trailing []bq.Clause `json:"trailing,omitempty"`
 	// BigLimit: the full query is run once more with LIMIT = the number of rows it returned,
 	// which cannot change the answer
 	BigLimit bool `json:"big_limit,omitempty"`
@@ -39,7 +43,7 @@ func (c c10Case) queries() (left, full bq.Query) {
 		left.Proj = append(left.Proj, bq.Proj{Binding: b})
 	}
 	left.From, left.Clauses, left.Global = c.From, c.Mandatory, c.Global
-	all := append(append([]bq.Clause{}, c.Mandatory...), c.Optional...)
+	all := append(append(append([]bq.Clause{}, c.Mandatory...), c.Optional...), c.Trailing...)
 	for _, b := range bq.AllBindings(all) {
 		full.Proj = append(full.Proj, bq.Proj{Binding: b})
 	}
@@ -175,6 +179,32 @@ func genC10(t *rapid.T) c10Case {
 		}
 		c.Optional = append(c.Optional, oc)
 	}
+	if gen.Maybe(t, 20, "trailing-mandatory") {
+		tc := g.GenClauseMixed("z0", bq.ClauseOpts{})
+		// often hung on a binding that only an OPTIONAL clause introduces
+		var only []string
+		for _, oc := range c.Optional {
+			for _, b := range []string{oc.S.Binding, oc.O.Binding} {
+				if b != "" && !mandatoryNames[b] {
+					only = append(only, b)
+				}
+			}
+		}
+		if len(only) > 0 && gen.Maybe(t, 60, "trailing-on-optional") {
+			tc.S = bq.SPos{Binding: gen.Pick(t, only, "trailing-binding")}
+		}
+		// keep the clause free of names that would turn it into a second source of NULL questions
+		tc.Optional = false
+		c.Trailing = []bq.Clause{tc}
+		if cs, renamed := avoidObjIDReuse(c.Trailing); renamed {
+			c.Trailing = cs
+			c.Excluded = append(c.Excluded, "KF-C03-OBJ-ID-UNCHECKED")
+		}
+		if cs, changed := avoidBindinglessClause(c.Trailing); changed {
+			c.Trailing = cs
+			c.Excluded = append(c.Excluded, "KF-C03-BINDINGLESS-CLAUSE")
+		}
+	}
 	all := append(append([]bq.Clause{}, c.Mandatory...), c.Optional...)
 	if cs, renamed := avoidObjIDReuse(all); renamed {
 		c.Mandatory, c.Optional = cs[:len(c.Mandatory)], cs[len(c.Mandatory):]
@@ -267,7 +297,7 @@ func checkC10(ctx *pbt.Ctx, c c10Case) error {
 	L := rowEnvs(lres)
 	R := rowEnvs(fres)
 	lcols := bq.AllBindings(c.Mandatory)
-	allCols := bq.AllBindings(append(append([]bq.Clause{}, c.Mandatory...), c.Optional...))
+	allCols := bq.AllBindings(append(append(append([]bq.Clause{}, c.Mandatory...), c.Optional...), c.Trailing...))
 	if len(L) == 0 {
 		if len(R) != 0 {
 			return fmt.Errorf("%q returns %d rows although the pattern before the OPTIONAL clauses has no solution", fq.String(), len(R))
@@ -386,6 +416,42 @@ func checkC10(ctx *pbt.Ctx, c c10Case) error {
 		cur = next
 		curCols = append(curCols, newCols...)
 	}
+	// clauses written after the OPTIONAL ones: inner join of the rows so far with their matches;
+	// a NULL cell agrees with no value
+	for _, tcl := range c.Trailing {
+		var next []bq.Env
+		for _, e := range cur {
+			for _, cd := range cands {
+				if !bq.GlobalAllows(c.Global, cd.Triple) {
+					continue
+				}
+				mi, ok := bq.Match(tcl, cd.Triple)
+				if !ok {
+					continue
+				}
+				agree := true
+				merged := bq.Env{}
+				for k, v := range e {
+					merged[k] = v
+				}
+				for k, v := range mi.Env {
+					if old, has := e[k]; has {
+						if old.Kind == 0 || old.Key() != v.Key() {
+							agree = false
+							break
+						}
+						continue
+					}
+					merged[k] = v
+				}
+				if agree {
+					next = append(next, merged)
+				}
+			}
+		}
+		cur = next
+		ctx.Label("mandatory-clause-after-optional")
+	}
 	// (i) every left row appears at least once; (ii) every result row restricts to a left row
 	lset := map[string]int{}
 	for _, e := range L {
@@ -396,6 +462,9 @@ func checkC10(ctx *pbt.Ctx, c c10Case) error {
 		rset[restrictKey(e, lcols)]++
 	}
 	for k := range lset {
+		if len(c.Trailing) > 0 {
+			break // a mandatory clause after the OPTIONAL ones may remove rows
+		}
 		if rset[k] == 0 {
 			return fmt.Errorf("OPTIONAL removed a row: %q returns no row for the solution {%s} of the pattern before the OPTIONAL clauses (left rows %d, result rows %d)\n data: %s", fq.String(), k, len(L), len(R), describeData(c.Data))
 		}
